@@ -90,6 +90,14 @@ theorem ea_no_leak (nrec : Nat) (r : RecLen) (ops : List EaOp) (m : Mem) :
     rw [EArray.free_live]
     omega
 
+/-- created, filled, cut, duplicated, freed — under an oracle that refuses the 3rd request: nothing but the copy stays -/
+example : (match EArray.init 2 ⟨4, by decide⟩ { f := fun n _ => n != 2 } with
+    | (some a, m1) =>
+      let r := EArray.run a [.append [1, 2, 3, 4] 2 ⟨2, by decide⟩, .append [9] 1 ⟨1, by decide⟩, .shrink 1 ⟨4, by decide⟩,
+                             .exportdup ⟨1, by decide⟩] m1
+      ((EArray.free r.2.1 r.2.2).live, r.1.map (·.2.st))
+    | (none, _) => (-1, [])) = (1, [.fail, .ok, .ok, .ok]) := by decide
+
 /-! ## Elastic queue, sequential pointer map, object pool -/
 
 /-- **`elasticqueue_add` that fails changes nothing** (and a request was refused); **`elasticqueue_delete` cannot fail**
@@ -124,6 +132,11 @@ theorem eq_no_leak (r : RecLen) (ops : List EqOp) (m : Mem) (hsmall : ops.length
     have hl := eq_run_live ops q m1 hinv hc (by rw [hoff, hlen, hrl]; simpa using hsmall)
     rw [EQueue.free_live]
     omega
+
+example : (match EQueue.init ⟨2, by decide⟩ Mem.grantAll with
+    | (some q, m1) => let r := EQueue.run q [.add [1, 2], .add [3, 4], .delete, .add [5, 6], .delete, .delete] m1
+                      (EQueue.free r.2.1 r.2.2).live
+    | (none, _) => -1) = 0 := by decide
 
 /-- **`seqptrmap_add` that fails returns -1 and changes nothing; `seqptrmap_delete` cannot fail** under any oracle
 (the NULL-trimming loop may shrink the queue's array, whose `realloc` may be refused — harmlessly). -/
@@ -163,6 +176,11 @@ theorem sm_no_leak (ops : List SmOp) (m : Mem) (hc : ∀ op ∈ ops, smContract 
     have hl := sm_run_live ops s m1 hinv hc (by rw [hqo, hql]; simpa using hq) (by rw [hoff, hlen]; simpa using hn)
     rw [SeqMap.free_live]
     omega
+
+example : (match SeqMap.init Mem.grantAll with
+    | (some s, m1) => let r := SeqMap.run s [.add 5, .add 6, .delete 0, .add 7, .delete 2, .delete 1] m1
+                      (SeqMap.free r.2.1 r.2.2).live
+    | (none, _) => -1) = 0 := by decide +kernel
 
 /-- **Pool**: `mpool_malloc` returns NULL only when a request was refused and `mpool_free` cannot fail — even if the
 `malloc` for a bigger stack is refused the object is simply released; in every case the simulation relation
